@@ -130,8 +130,10 @@ def cusp(k, nf):
             + nf**2 * (-mp.mpf(1) / 27)
         )
     if k == 4:
-        # numerical four-loop quark cusp (Henn et al. 2019 / Moch et al. 2017)
-        return mp.mpf("20702") - mp.mpf("5171.9") * nf + mp.mpf("195.5772") * nf**2 + mp.mpf("3.272344") * nf**3
+        # numerical four-loop quark cusp, A_4 = 20702(2) - 5171.916(4) nf + 195.5772 nf^2 + 3.272344 nf^3
+        # (Moch et al. 2017 eq. 4.x / Henn et al. 2019; re-verified against the coefficients quoted in
+        #  the N3LO non-singlet parametrisations, builder C)
+        return mp.mpf("20702") - mp.mpf("5171.916") * nf + mp.mpf("195.5772") * nf**2 + mp.mpf("3.272344") * nf**3
     raise KeyError(k)
 
 
